@@ -76,9 +76,14 @@ func qGenPod(name string) *qPod {
 	case 3:
 		p.Annotations = map[string]string{v1.DoNotDisruptAnnotationKey: "soon"}
 	}
-	if verifrt.Choice(name+".tolerates", 0, 1) == 1 {
+	// tolerating the disruption taint: by its key, or by a toleration for every taint (empty key, Exists)
+	switch verifrt.Choice(name+".tolerates", 0, 2) {
+	case 1:
 		q.tolerates = true
 		p.Spec.Tolerations = []corev1.Toleration{{Key: v1.DisruptedTaintKey, Operator: corev1.TolerationOpExists}}
+	case 2:
+		q.tolerates = true
+		p.Spec.Tolerations = []corev1.Toleration{{Operator: corev1.TolerationOpExists}}
 	}
 	if verifrt.Choice(name+".static", 0, 1) == 1 {
 		q.static = true
@@ -207,8 +212,12 @@ func VerifC10_DrainOrder() {
 			d.tier++
 		}
 		switch verifrt.Choice(name+".kind", 0, 2) {
-		case 1: // tolerates the disruption taint: not drained
-			p.Spec.Tolerations = []corev1.Toleration{{Key: v1.DisruptedTaintKey, Operator: corev1.TolerationOpExists}}
+		case 1: // tolerates the disruption taint (by key, or by tolerating everything): not drained
+			if verifrt.Choice(name+".wildcard", 0, 1) == 1 {
+				p.Spec.Tolerations = []corev1.Toleration{{Operator: corev1.TolerationOpExists, Effect: corev1.TaintEffectNoSchedule}}
+			} else {
+				p.Spec.Tolerations = []corev1.Toleration{{Key: v1.DisruptedTaintKey, Operator: corev1.TolerationOpExists}}
+			}
 			d.waiting = false
 		case 2: // has a grace period that may reach past the node deadline
 			g := int64(verifrt.IntRange(name+".tgps", 0, 86400))
